@@ -258,6 +258,32 @@ fn main() {
         };
         out.line(&format!("#{} {}", i, line));
     }
+    // exhaustive sweep: every ASCII byte (0..=127, control characters included) in every digit position of
+    // every accepted layout ("accepts exactly these forms": only the 22 hexadecimal digits may be accepted)
+    {
+        let bases = ["(0028,0A1f)", "0028,0A1f", "00280A1f"];
+        let mut j = 0u64;
+        for base in bases {
+            for (pos, ch) in base.char_indices() {
+                if !ch.is_ascii_hexdigit() {
+                    continue;
+                }
+                for b in 0u8..=127 {
+                    let id = 1_000_000_000 + j;
+                    j += 1;
+                    if let Some(only) = a.only {
+                        if only != id {
+                            continue;
+                        }
+                    }
+                    let mut bytes = base.as_bytes().to_vec();
+                    bytes[pos] = b;
+                    let s = String::from_utf8(bytes).expect("ascii");
+                    out.line(&format!("#{} str {} {}", id, hexs(&s), tag_res(&s)));
+                }
+            }
+        }
+    }
     // every dictionary keyword: alone (parse_tag) and inside a selector `kw[item].kw`
     for (j, k) in kws.iter().enumerate() {
         let id = a.count + j as u64;
